@@ -609,6 +609,13 @@ def competition_summary(comp: "Competition") -> dict:
         acc = acceptance(comp, u)
         dom = neighbour_domain(comp, u)
         branch = stores_in_branch(comp, u)
+        extra_stores = []
+        if not any(e.target[0] == "attr" and e.target[2] == "predicted_label" for e in comp.events if e.kind == "store"):
+            from .rules_ift import _deferred_labels
+            if comp.graph is not None and _deferred_labels(comp.walker, comp):
+                # labels copied along the final predecessors in one pass after the loop: what the accepted branch would copy
+                extra_stores.append((show(rewrite(comp.field(u.q, "predicted_label"), f)),
+                                     show(rewrite(comp.field(comp.p, "predicted_label"), f))))
         sites.append({
             "domain": (dom[0], show(dom[1]) if dom[1] is not None else None),
             "candidate": show(rewrite(u.value, f)),
@@ -616,7 +623,7 @@ def competition_summary(comp: "Competition") -> dict:
             # (an exit taken once every node has left the queue restricts nothing: rules_ift.classify_guard proves it exact)
             "guards": tuple(sorted(show(rewrite(g if pol else mk_not(g), f)) for g, pol in u.inner_guards
                                    if not _is_all_settled(comp, u, g, pol))),
-            "stores": tuple(sorted((show(rewrite(e.target, f)), show(rewrite(e.value, f))) for e in branch)),
+            "stores": tuple(sorted([(show(rewrite(e.target, f)), show(rewrite(e.value, f))) for e in branch] + extra_stores)),
         })
     out["sites"] = sites
     return out
